@@ -180,6 +180,35 @@ theorem quota_within_allowance (sv : Server) (user : String) (now : Int) (p : Po
     refused sv user now = false :=
   within_allowance sv user now p m hp hm hup hdown hall
 
+/- FULL-STRENGTH STATEMENT (property text: "new sessions refused with the quota status and nothing
+   relayed on them") — FALSE for the code as it is:
+
+     theorem quota_refused_nothing_relayed (sv user payload now)
+         (h : (onOpenRequest sv user payload now).refused = true) :
+         (onOpenRequest sv user payload now).readable = []
+
+   because `inputData` queues the piggy-backed payload of the open-session request before it
+   evaluates the quota (see `Mieru.Quota.onOpenRequest`).  Proved instead: the partial statement with
+   the exact extra hypothesis, and the counterexample. -/
+
+/-- A refused open-session request carries the quota status, and relays nothing IF the client
+    piggy-backed no payload on the request. -/
+theorem quota_refused_nothing_relayed_partial (sv : Server) (user : String) (payload : List UInt8) (now : Int)
+    (h : (onOpenRequest sv user payload now).refused = true) (hp : payload = []) :
+    (onOpenRequest sv user payload now).status = Mieru.Gen.statusQuotaExhausted.toNat ∧
+    (onOpenRequest sv user payload now).readable = [] := by
+  simp only [onOpenRequest] at h ⊢
+  simp [h, hp, statusQuotaExhausted, Mieru.Gen.statusQuotaExhausted]
+
+/-- Witness of the deviation: user "a", 1 MB / 1 day quota, 2 MiB counted, a 3-byte payload on the
+    open request: refused, yet the 3 bytes are readable by the server application. -/
+theorem quota_refused_payload_counterexample :
+    ∃ (sv : Server) (user : String) (payload : List UInt8) (now : Int),
+      (onOpenRequest sv user payload now).refused = true ∧ (onOpenRequest sv user payload now).readable ≠ [] :=
+  ⟨{ policies := fun u => if u = "a" then some ⟨"a", [⟨1, 1⟩]⟩ else none,
+     metrics := fun u => if u = "a" then some ⟨[⟨1000, 2097152, 0⟩], []⟩ else none },
+   "a", [1, 2, 3], 2000 * nsPerMs, by decide⟩
+
 /-- The constants of the model are the constants of the compiled repository. -/
 theorem counter_constants :
     (rollUpInterval : Int) = Mieru.Gen.rollUpInterval ∧
